@@ -19,11 +19,12 @@
 enum { K_AGG, K_CHUNK, K_TSSYNC, K_TSCHECK, K_TSALIGN_SYNC, K_TSALIGN_CHECK, K_N };
 static const char *const kname[] = { "aggregate", "chunk_stream", "ts_sync", "ts_check", "ts_align(sync)", "ts_align(check)" };
 
-enum { CL_AGG, CL_CHUNK, CL_TSSYNC, CL_TSCHECK, CL_TSALIGN, CL_CUT_INSIDE_UNIT, CL_EMPTY_BUF, CL_ONEBYTE_BUF, CL_SEGMENTED, CL_GARBAGE, CL_FALSE_SYNC, CL_TAIL_DROPPED, CL_CUTTINGS_DIFFER, CL_RELEASE_MID, CL_AGG_FDSIZE, CL_SPLIT_HEAD, CL_CHUNK_RECONF, CL_AGG_REDEF, CL_CHUNK_BADCONF, CL_TSALIGN_REDEF };
+enum { CL_AGG, CL_CHUNK, CL_TSSYNC, CL_TSCHECK, CL_TSALIGN, CL_CUT_INSIDE_UNIT, CL_EMPTY_BUF, CL_ONEBYTE_BUF, CL_SEGMENTED, CL_GARBAGE, CL_FALSE_SYNC, CL_TAIL_DROPPED, CL_CUTTINGS_DIFFER, CL_RELEASE_MID, CL_AGG_FDSIZE, CL_SPLIT_HEAD, CL_CHUNK_RECONF, CL_AGG_REDEF, CL_CHUNK_BADCONF, CL_TSALIGN_REDEF, CL_SIZE_BACK_AND_FORTH, CL_SYNC_COUNT_ONE };
 static const char *const class_names[] = { "aggregate", "chunk_stream", "ts_sync", "ts_check", "ts_align", "buffer_boundary_inside_output_unit",
     "empty_buffer", "one_byte_buffer", "segmented_buffer", "garbage_before_or_between_packets", "false_sync_in_payload", "unaligned_tail_dropped",
     "cuttings_differ", "release_before_end_of_stream", "aggregate_flow_def_announces_block_size", "buffer_is_head_of_a_split_block", "chunk_stream_set_mtu_before_release",
-    "aggregate_flow_def_set_again_in_mid_stream", "chunk_stream_invalid_set_mtu_before_release", "ts_align_flow_def_of_another_category_first", NULL };
+    "aggregate_flow_def_set_again_in_mid_stream", "chunk_stream_invalid_set_mtu_before_release", "ts_align_flow_def_of_another_category_first",
+    "output_size_set_to_another_value_and_back_after_flow_def", "ts_sync_set_sync_one_tried", NULL };
 
 #define MAXSTREAM 4096
 #define MAXUNITS (MAXSTREAM + 32)
@@ -43,6 +44,7 @@ struct ctx {
     int mtu, align;         /* agg MTU / chunk mtu + align */
     int fdsize;             /* agg: block size announced in the flow definition (0: none) */
     int refd_at;            /* agg: a changed flow definition is set again before this buffer (-1: never); what is pending stays pending */
+    bool resize, try_one;
     int predef;             /* ts_align: a flow definition of another category is set first (1: block.mpegts., 2: the other of aligned / raw); the pipe must behave as its LAST definition says */
     int bad_mtu;            /* chunk_stream: an invalid set_mtu (index + 1 into a table) issued before the release: refused, and nothing changes */
     int mtu2, align2;       /* chunk_stream: configuration set after the last buffer, before the release (0: unchanged) */
@@ -182,7 +184,16 @@ static void run_pipe(struct ctx *c, const struct cutting *cut, struct units *out
     switch (c->kind) {
     case K_AGG: err = upipe_set_output_size(p, c->mtu); break;
     case K_CHUNK: err = upipe_chunk_stream_set_mtu(p, c->mtu, c->align); break;
-    case K_TSSYNC: err = upipe_set_output_size(p, c->P); if (ubase_check(err)) err = upipe_ts_sync_set_sync(p, c->N); break;
+    case K_TSSYNC: err = upipe_set_output_size(p, c->P);
+        if (ubase_check(err) && c->try_one) {
+            /* a count the pipe may refuse; when it accepts it, that count is the configuration the units are judged by */
+            int e1 = upipe_ts_sync_set_sync(p, 1), got = 0;
+            if (!ubase_check(upipe_ts_sync_get_sync(p, &got)) || got != (ubase_check(e1) ? 1 : 2))
+                FAIL("config", "ts_sync reports %d sync words after set_sync(1) returned %d on a new pipe", got, e1);
+            c->N = ubase_check(e1) ? 1 : 2;
+            c->classes |= 1u << CL_SYNC_COUNT_ONE;
+        } else if (ubase_check(err)) err = upipe_ts_sync_set_sync(p, c->N);
+        break;
     case K_TSCHECK: err = upipe_set_output_size(p, c->P); break;
     default: break;
     }
@@ -201,6 +212,16 @@ static void run_pipe(struct ctx *c, const struct cutting *cut, struct units *out
     uref_free(fd);
     if (!ubase_check(err)) FAIL("flowdef", "%s refused a block flow definition (%d)", kname[c->kind], err);
     upipe_set_output(p, sink);
+    if (c->resize && !c->ret) {
+        /* the size is set to another value and back once the flow definition is known: the last accepted value is in force */
+        unsigned other = c->kind == K_AGG ? (unsigned)c->mtu + 5 : c->P == 188 ? 204 : 188;
+        unsigned mine = c->kind == K_AGG ? (unsigned)c->mtu : (unsigned)c->P, got = 0;
+        int e1 = upipe_set_output_size(p, other), e2 = upipe_set_output_size(p, mine);
+        if (!ubase_check(e1) || !ubase_check(e2)) FAIL("config", "%s refused set_output_size(%u) then (%u): %d %d", kname[c->kind], other, mine, e1, e2);
+        if (!ubase_check(upipe_get_output_size(p, &got)) || got != mine)
+            FAIL("config", "%s reports output size %u after set_output_size(%u) was accepted", kname[c->kind], got, mine);
+        c->classes |= 1u << CL_SIZE_BACK_AND_FORTH;
+    }
     int pos = 0;
     for (int i = 0; i < cut->n && i < cut->feed && !c->ret; i++) {
         if (i == c->refd_at && i > 0) {
@@ -270,6 +291,8 @@ static int run(const uint8_t *tp_, size_t len, struct vp_report *rep, unsigned f
     if (c->kind == K_CHUNK && (cfgb / (K_N * 2)) % 4 == 2) c->bad_mtu = 1 + (cb + cfgb) % 4;
     { unsigned q = (cfgb / (K_N * 2)) % 4; c->fdsize = q == 0 ? 0 : q == 1 ? 1 : q == 2 ? (c->mtu + 1) / 2 : c->mtu; if (c->kind == K_AGG && c->fdsize) c->classes |= 1u << CL_AGG_FDSIZE; }
     c->refd_at = (c->kind == K_AGG && (cb + cfgb * 7) % 5 < 2) ? ((cb >> 3) + cfgb) % 8 : -1;      /* (uses no tape octet) */
+    c->resize = (c->kind == K_AGG || c->kind == K_TSCHECK || c->kind == K_TSSYNC) && (cfgb / (K_N * 8)) % 2 == 1;
+    c->try_one = c->kind == K_TSSYNC && c->N == 5 && cfgb / (K_N * 8) >= 3;
     h = vp_hash_mix(h, cfgb); h = vp_hash_mix(h, cb); h = vp_hash_mix(h, c->align);
     if (c->kind >= K_TSALIGN_SYNC) { c->P = 188; c->N = 2; }   /* ts_align exposes neither setter: defaults */
     bool is_ts = c->kind >= K_TSSYNC;
